@@ -132,9 +132,15 @@ def run(ctx):
         rng = ctx.rng(idx)
         ctx.reseed_global(idx)
         grouped = rng.random() < 0.12
-        h = model.gen_group_history(rng) if grouped else model.gen_history(rng, ndocs=(1, 45), boosts=rng.random() < 0.3)
+        big = (idx % 23 == 5)
+        if big:
+            grouped = False
+            h = model.gen_big_history(rng)
+            ctx.count("c01.big_segment_cases")
+        else:
+            h = model.gen_group_history(rng) if grouped else model.gen_history(rng, ndocs=(1, 45), boosts=rng.random() < 0.3)
         wname, wobj = gen_weighting(rng)
-        wb = {"history": {"commits": [len(c) for c in h["commits"]], "deletes": h["deletes"],
+        wb = {"history": {"commits": [len(c) for c in h["commits"]], "deletes": h["deletes"][:12],
                           "blocklimit": h["blocklimit"], "storage": h["storage"]}, "case_idx": idx, "weighting": wname}
         ok, built = ctx.guard("c01.build", wb, model.build, h)
         if not ok:
@@ -160,6 +166,12 @@ def run(ctx):
                             q, pre = query.Or([q, t]), pre | model.expected_keys(t, built.live)
                         ctx.count("c01.nested_queries")
                         exp = check_query(ctx, rng, built, s, q, wb, wname, exp=pre)
+                    elif big and rng.random() < 0.6:
+                        from whoosh import query
+                        q = query.Or([model.gen_leaf(rng, fuzzy=False) for _ in range(rng.randint(3, 5))])
+                        if rng.random() < 0.3:
+                            q = query.And([q, model.gen_leaf(rng, fuzzy=False)])
+                        exp = check_query(ctx, rng, built, s, q, wb, wname)
                     else:
                         q = model.gen_query(rng, depth=rng.choice([1, 2, 3, 3, 4]), scoring=rng.random() < 0.4)
                         exp = check_query(ctx, rng, built, s, q, wb, wname)
